@@ -159,6 +159,20 @@ CATALOGUE = [
     K("dotless-directive", "compile", "warning", "⟦word⟧ 1", "meta-typo", wclass="all"),
     K("excess-hash-insn", "compile", "warning", "emt ⟦#⟧1", "excess-hash", wclass="default"),
     K("excess-quote", "parse", "warning", ".word ⟦'a'⟧", "excess-quote", wclass="all"),
+    # ------------------------------------------------------------------ added after the seeding round (DESIGN.md 10.6)
+    # faults that sit in a NON-leftmost sub-expression: the position must be that of the faulty operator application
+    K("inner-division-by-zero", "compile", "error", ".word 1 + ⟦2 / 0⟧", "arithmetic-error"),
+    K("inner-negative-shift", "compile", "error", ".word 3 + 4 * <⟦1 << -1⟧>", "arithmetic-error"),
+    K("lazy-inner-division-by-zero", "link", "error", "mov #size{u} * 2 + ⟦size{u} / cnt{u}⟧, r0", "arithmetic-error",
+      post=("size{u} = 10", "cnt{u} = 0")),
+    K("missing-right-operand", "parse", "critical", ".word 1 + ⟦]⟧", "invalid-expression",
+      note="an infix operator followed by blank space and something that is not an operand: the offending character is designated"),
+    # non-critical errors that the parser issues through its 'report=' path
+    K("escape-x-without-digits", "parse", "error", ".ascii /ab⟦\\x⟧ZZcd/", "invalid-escape"),
+    K("caret-r-without-characters", "parse", "error", ".word ⟦^R⟧", "invalid-string"),
+    # warnings whose report has several spans on one source line
+    K("label-fixup", "compile", "warning", "⟦br⟧ 1{u} + 2", "label-fixup", pre=("1{u}: nop",), wclass="default", level="statement"),
+    K("missing-newline", "parse", "warning", "⟦nop⟧ nop", "missing-newline", wclass="all", level="statement"),
 ]
 del K
 
